@@ -219,6 +219,7 @@ def shadow_bookkeeping_rule(F, R, rid):
 def run(F, R, ctx):
     _run(F, R, ctx)
     transitive_rescue_rule(F, R)
+    later_assignment_rule(F, R)
 
 
 def _run(F, R, ctx):
@@ -353,3 +354,41 @@ def transitive_rescue_rule(F, R):
            bool(looped) and reads_roots,
            "GlobalSlotRecycler::recycle visits once from the globals that are not candidates and never from the values of the "
            "candidate slots it found referenced: the walk is not transitive", rec.loc(), sample=True)
+
+
+def later_assignment_rule(F, R):
+    R.rule("C06.K", "what one evaluation assumes about a global must survive the next evaluation: the constant folder substitutes "
+                    "the value of a definition for its uses after checking that nothing in the *current* program assigns it "
+                    "(CollectSet); for a top-level definition that is not enough — a later evaluation may `set!` it — so the "
+                    "recording of a definition as a constant (ConstantEnv::bind in ConstantEvaluator::visit_define) has to be "
+                    "decided by the scope as well: dominated by a branch computed from the environment (its parent link, a "
+                    "scope query), not only by 'the value is a constant'")
+    fn = F.one(r"const_evaluation::\{impl ConsumingVisitor for ConstantEvaluator(<'a>)?\}::visit_define$")
+    binds = fn.call_blocks(r"\{impl ConstantEnv\}::bind$")
+    if not binds:
+        raise CheckError("anchor lost: ConstantEvaluator::visit_define no longer calls ConstantEnv::bind")
+    dom = fn.dominators()
+    for k, bnd in enumerate(binds):
+        scoped = False
+        for sb in dom.get(bnd, ()):
+            blk = fn.blocks[sb]
+            if blk["k"] != "switch":
+                continue
+            loc = re.match(r"_\d+", blk.get("place", "").strip("()*"))
+            if not loc:
+                continue
+            srcs = lib.alias_sources(fn, loc.group(0), depth=8) | {loc.group(0)}
+            # produced by a query of the environment (a ConstantEnv / ConstantEvaluator method other than the recorders and
+            # to_constant), or read from ConstantEnv.parent / a depth field of the evaluator
+            for i, cb in fn.calls():
+                d = re.match(r"_\d+", cb.get("dest") or "")
+                if d and d.group(0) in srcs and re.search(r"\{impl Constant(Env|Evaluator(<'a>)?)\}::(?!bind$|bind_non_constant$|to_constant$)\w+$", cb["callee"]):
+                    scoped = True
+            if any(re.search(r"\.(parent|depth|scope_depth|lambda_depth)\b", x) for x in srcs):
+                scoped = True
+        R.inst("C06.K", "ConstantEvaluator::visit_define / a definition becomes a constant only where no later evaluation can assign it",
+               scoped,
+               "ConstantEvaluator::visit_define records every definition with a constant value for substitution, top-level ones "
+               "included (line %s): a later evaluation that assigns the global is not seen by the code compiled earlier — "
+               "one evaluation `(define x 10) (define (f) (+ x 1))`, then `(set! x 20)`, then `(f)` answers 11" % fn.blocks[bnd].get("line"),
+               fn.loc(fn.blocks[bnd].get("line")), sample=True)
